@@ -161,7 +161,7 @@ column), concrete inputs, a history with an empty list and a shrinking re-run -/
 
 def exSpec (df : Bool) : Spec String (List Nat) :=
   { bodyInputs := ["a", "b", "c", "d"], bodyDefault := fun _ => none, outputs := ["o"],
-    iterOn := ["a", "b"], zipOn := ["c"], asDf := df, useCache := true, gateCache := false, clearOnFail := false,
+    iterOn := ["a", "b"], zipOn := ["c"], asDf := df, useCache := true, gateCache := false, clearOnFail := false, startAbort := true,
     colmap := fun _ => "O", bodyFn := fun _ args => 99 :: args.flatten, listVal := List.flatten }
 
 def exSpec0 : Spec String (List Nat) :=
